@@ -413,6 +413,35 @@ SEEDS = {
     "C20e-first-name-own-base": dict(
         property="C20", change="the first name of a list is resolved against its own directory part",
         needs="a top-level name with a relative directory part and a same-named file below that directory", first="caught (C20: precedence mismatch)", strengthened=""),
+    # ---- round 6 (eight properties)
+    "C01f-groupend-guard-gt": dict(
+        property="C01", change="the }name action of passDoAction tests `>` instead of `>=` before storing its cell",
+        needs="a grouping rule, a last-pass rule emitting }name, the capacity used up exactly there", first="caught (C01: ASan in _lou_translate, capacity sweep)", strengthened=""),
+    "C02f-unknowndots-buffer-16": dict(
+        property="C02", change="_lou_unknownDots' static buffer shrunk to 16 bytes",
+        needs="back-translation (not noUndefined) of an undefined cell with 14 of the 15 dots set",
+        first="missed (braille inputs carried dots 1-8 only)", strengthened="cells with virtual dots up to all fifteen in the braille inputs"),
+    "C04f-prehyph-inpos-outpos": dict(
+        property="C04", change="lou_translatePrehyphenated compares the input position with the previous OUTPUT index",
+        needs="hyphen arrays and text whose braille runs two or more cells ahead (capitals, numbers)",
+        first="missed by C04 (C10 has an oracle for this function)", strengthened="C04 calls lou_translatePrehyphenated with hyphen arrays, each paired with the same call through lou_translate: 0 only where the twin fails or its positions do not ascend"),
+    "C07f-prehyph-private-inputpos": dict(
+        property="C07", change="lou_translatePrehyphenated always translates into a private inputPos array: the caller's is never written",
+        needs="hyphen arrays together with a caller-supplied inputPos", first="missed", strengthened="a share of C07's forward calls go through lou_translatePrehyphenated with hyphen arrays"),
+    "C12f-finalized-guard-dropped": dict(
+        property="C12", change="finalizeCharacter loses its `finalized` test again (the defect fixed by 9bd93a10 re-introduced)",
+        needs="a base chain of depth two", first="caught (C12: image inconsistent, references / linked-list cycle)", strengthened=""),
+    "C13f-basecycle-counter-restart": dict(
+        property="C13", change="finalizeCharacter restarts the loop-detection counter in every recursive call",
+        needs="base rules forming a ring of length >= 2", first="caught (C13: compile crash in finalizeCharacter)", strengthened=""),
+    "C15f-cache-prefix-translation": dict(
+        property="C15", change="the translation-table cache matches a name that is a prefix of a cached list string (the mechanism of C20d/C17c, offered for C15)",
+        needs="a longer list loaded first, then lou_compileString on the list that is its leading substring",
+        first="caught at proof level only (cache keyed by the whole string)", strengthened="every C15 sequence first loads and uses the list `base,other`: concrete add-result / not-as-if-written replays"),
+    "C19f-validmode-mask": dict(
+        property="C19", change="_lou_isValidMode accepts every bit below partialTrans<<1, i.e. also the unused bits 8 and 16",
+        needs="a mode containing 8 or 16: no error message any more", first="missed (the invalid modes of the pool were 99999 and 262144)",
+        strengthened="modes with the two unused bits and their combinations in the pool; which modes must produce the message is decided from the documented set of bits"),
 }
 
 
